@@ -145,6 +145,11 @@ Proof.
     + cbn [fst snd]. destruct (D <? t) eqn:E2; [apply orb_true_r|lia].
     + eapply Forall_impl; [|exact Hall]. intros te Hte. cbn beta in *. destruct (D <? fst te) eqn:E2; [apply orb_true_r|lia].
 Qed.
+
+Theorem skip_until_with_time_closed b ts t0 (es : list (Z * ev A)) : tsorted es ->
+  timed_emits t0 (simulate (x_skip_until_with_time b ts t0) t0 (ext_of es))
+  = upto_term (filter (fun te => is_terminal (snd te) || (due_at ts t0 <? fst te)) es).
+Proof. intros Hs. rewrite (skip_until_with_time_spec b ts t0 es Hs). exact (skip_spec_sorted (due_at ts t0) es Hs). Qed.
 End SkipUntil.
 
 Section Timeout.
